@@ -406,6 +406,7 @@ structure NodeStep (ks : List Tree) : Prop where
   groups : (groupAdjacent (sortBy leftmost ks)).map (·.flatMap yield) =
     blocksOf (sortBy id (ks.flatMap leafNums))
   groupYield : ∀ g ∈ groupAdjacent (sortBy leftmost ks), sortBy id (g.flatMap leafNums) = g.flatMap yield
+  groupSorted : ∀ g ∈ groupAdjacent (sortBy leftmost ks), (g.flatMap yield).Pairwise (· < ·)
 
 theorem nodeStep (ks : List Tree) (hI : ∀ x ∈ ks, Ival x) (hn : (ks.flatMap leafNums).Nodup) :
     NodeStep ks := by
@@ -416,15 +417,17 @@ theorem nodeStep (ks : List Tree) (hI : ∀ x ∈ ks, Ival x) (hn : (ks.flatMap 
     (hp.symm.nodup hn)
   have hy : sortBy id (ks.flatMap leafNums) = (sortBy leftmost ks).flatMap yield :=
     sortBy_id_eq (hp.symm.trans (flatMap_yield_perm _)) (le_of_strict hsorted)
-  refine ⟨hsorted, hy, ?_, ?_⟩
-  · rw [hy]; exact groupAdjacent_yields _ hI'
-  · intro g hg
+  have hgs : ∀ g ∈ groupAdjacent (sortBy leftmost ks), (g.flatMap yield).Pairwise (· < ·) := by
+    intro g hg
     have hsub : g.Sublist (sortBy leftmost ks) := by
       have := List.sublist_flatten_of_mem hg
       rwa [groupAdjacent_flatten] at this
-    refine sortBy_id_eq (flatMap_yield_perm g) (le_of_strict ?_)
     rw [List.pairwise_flatMap] at hsorted ⊢
     exact ⟨fun a ha => hsorted.1 a (hsub.subset ha), hsorted.2.sublist hsub⟩
+  refine ⟨hsorted, hy, ?_, ?_, hgs⟩
+  · rw [hy]; exact groupAdjacent_yields _ hI'
+  · intro g hg
+    exact sortBy_id_eq (flatMap_yield_perm g) (le_of_strict (hgs g hg))
 
 /-! ### noEmpty / continuous -/
 
